@@ -275,4 +275,26 @@ PROPS = {
         "assumptions": ["the benign same-value races on cache slots are not reported as data races (a serialising scheduler hides them from TSan anyway)",
                         "Terminal is excluded: it ends every argument tuple, so it cannot be passed as the type of an error message"],
     },
+    "C18": {
+        "level": "other",
+        "explanation": "Differential replay: the same seeded in-contract plan (no error path: no absent keys, no invalid calls, no library-raised "
+                "exceptions) is executed by one simulator binary per build configuration - default, CELLO_NDEBUG, method cache disabled "
+                "(CELLO_CACHE=0), CELLO_NGC, each at several optimisation levels, harness compiled with the same switches because the header "
+                "layout changes. Container/String plans emit a transcript (every length, every element read by get and by iteration, ordered "
+                "Tree iteration, mem results, formatted strings, String contents); its hash and line count must be identical in every "
+                "configuration, and every configuration must also agree with the reference model (a model violation in one configuration is a "
+                "divergence). Exception-tree plans (user-level throw/catch only) must produce the same event trace hash everywhere. quick: 5 "
+                "configurations; thorough: 13.",
+        "rule": "one evaluation = one plan executed under one configuration; non-trivial = the plan created >= 2 containers/strings (containers "
+                "stage) or contains an inner handled exception / throw from a handler (exceptions stage); distinct = distinct trace hashes.",
+        "stages": lambda tier: (
+            [{"scen": "containers", "env": {"focus": 18, "avoid_kf": AVOID_KF}, "runs": 2500 if tier == "quick" else 120_000, "configs": [c],
+              "differential": True} for c in (["plain", "ndebug-o2", "nocache-o2", "ngc-o2", "o3"] if tier == "quick" else
+              ["plain", "o0", "o2", "o3", "ndebug-o0", "ndebug-o2", "ndebug-o3", "nocache-o0", "nocache-o2", "nocache-o3", "ngc-o0", "ngc-o2", "ngc-o3"])] +
+            [{"scen": "exc", "env": {"threads": 0, "nolib": 1}, "runs": 2500 if tier == "quick" else 120_000, "configs": [c], "first": 30_000_000, "timeout": 6,
+              "differential": True, "diff_keys": ["verdict", "hash"]} for c in (["plain", "ndebug-o2", "nocache-o2", "ngc-o2", "o3"] if tier == "quick" else
+              ["plain", "o0", "o2", "o3", "ndebug-o0", "ndebug-o2", "ndebug-o3", "nocache-o0", "nocache-o2", "nocache-o3", "ngc-o0", "ngc-o2", "ngc-o3"])]),
+        "rare_probes": ["new.seq", "new.table", "new.tree", "new.string", "seq.sort", "copy", "assign", "str.print_to", "exc.outer_completes_after_inner_handled"],
+        "assumptions": ["only in-contract programs: error paths behave differently under CELLO_NDEBUG by design", "addresses and Table iteration order are excluded from transcripts"],
+    },
 }
